@@ -34,8 +34,20 @@ def P(s):
     return ast.parse(s).body[0].value
 
 
-NOPS_Q = 6
-NOPS_T = 10
+# Python callables handed to the operators (their source is recovered from THIS file by the library): the same function object is
+# used by every step of a history, on streams of different item types (on the typed dataset the follower fills in declared defaults).
+def _keep(f):
+    return f
+
+
+SHARED_SEL = _keep(lambda e: e.Jets().Select(lambda j: j.pt()))
+
+
+def shared_cut(e): return e.Jets().Count() > 1  # noqa: E704
+
+
+QOPS = [0, 1, 2, 3, 4, 5, 11]        # operation kinds of the quick tier
+TOPS = [0, 1, 2, 3, 4, 5, 6, 7, 8, 9, 10, 11]
 
 
 def run(st):
@@ -69,6 +81,10 @@ def step(par, o, v, lams):
         return par.SelectMany(lams["tsm"] if typed else lams["sm"])
     if o == 8:     # Select with a constant from the history inside the lambda
         return par.Select(ast.Lambda(lams["sel"].args, ast.BinOp(lams["sel"].body, ast.Add(), ast.Constant(v))))
+    if o == 10:    # Select with a Python lambda object shared by all steps (source recovery + capture rewriting + type following on the recovered AST)
+        return par.Select(SHARED_SEL)
+    if o == 11:    # Where with a one-line def passed by name
+        return par.Where(shared_cut)
     return par.Select(lams["dict"])
 
 
@@ -104,12 +120,12 @@ def history(k, ops, pars, vals):
 
 def c11(code: int, o2: int, p0: int, p1: int, p2: int, v: int) -> str:
     """
-    pre: LO <= code < HI and 0 <= code < 36
-    pre: 0 <= o2 < 6 and 0 <= p0 <= 1 and 0 <= p1 <= 2 and 0 <= p2 <= 3
+    pre: LO <= code < HI and 0 <= code < 49
+    pre: 0 <= o2 < 7 and 0 <= p0 <= 1 and 0 <= p1 <= 2 and 0 <= p2 <= 3
     post: (_ == '') != TWIN
     """
-    code = pick(code, max(LO, 0), min(HI, 36))
-    ops = [code // 6, code % 6, pick(o2, 0, 6)]
+    code = pick(code, max(LO, 0), min(HI, 49))
+    ops = [QOPS[code // 7], QOPS[code % 7], QOPS[pick(o2, 0, 7)]]
     pars = [pick(p0, 0, 2), pick(p1, 0, 3), pick(p2, 0, 4)]
     tick()
     try:
@@ -120,12 +136,12 @@ def c11(code: int, o2: int, p0: int, p1: int, p2: int, v: int) -> str:
 
 def c11t(code: int, o2: int, p0: int, p1: int, p2: int, v: int) -> str:
     """
-    pre: LO <= code < HI and 0 <= code < 100
-    pre: 0 <= o2 < 10 and 0 <= p0 <= 1 and 0 <= p1 <= 2 and 0 <= p2 <= 3
+    pre: LO <= code < HI and 0 <= code < 144
+    pre: 0 <= o2 < 12 and 0 <= p0 <= 1 and 0 <= p1 <= 2 and 0 <= p2 <= 3
     post: (_ == '') != TWIN
     """
-    code = pick(code, max(LO, 0), min(HI, 100))
-    ops = [code // 10, code % 10, pick(o2, 0, 10)]
+    code = pick(code, max(LO, 0), min(HI, 144))
+    ops = [TOPS[code // 12], TOPS[code % 12], TOPS[pick(o2, 0, 12)]]
     pars = [pick(p0, 0, 2), pick(p1, 0, 3), pick(p2, 0, 4)]
     tick()
     try:
@@ -134,7 +150,7 @@ def c11t(code: int, o2: int, p0: int, p1: int, p2: int, v: int) -> str:
         return "raised %s: %s" % (type(e).__name__, e)
 
 
-K4OPS = [0, 1, 3, 5, 9]
+K4OPS = [0, 1, 3, 5, 11]
 
 
 def c11k4(code: int, o3: int, p0: int, p1: int, p2: int, p3: int, v: int) -> str:
